@@ -21,7 +21,13 @@ func init() {
 	register("C13", "other", []string{
 		"decides: Vertex.status is confined to the scheduler goroutine (never touched by a launched goroutine); the readiness predicate, evaluated exhaustively over the four status values, offers a vertex only when it is pending/skip and no child is pending or in progress; the offered vertex is marked in progress before the next offer; one Task.Fn call site inside a bounded retry loop that stops at the first nil; every launched goroutine sends exactly one completion carrying the last error; runDone is stored only on receipt of a completion",
 		"visibility of a dependency's writes follows from the Go memory model (send happens-before receive, go statement happens-before the goroutine) - trusted; Retries < 0 is not decided",
-	}, rC13Ownership, rC13Readiness, rC13MarkInProgress, rC13RetryLoop, rC13Completion, func(w *World, r *Report) { subRule(w, r, rC14Completion, "R13.6", "a dependency that did not return nil never lets its dependents start: every non-nil completion is recorded (which closes the launch gate) or marks the dependents skipped (same obligations as C14 R14.2)", 5) }, func(w *World, r *Report) { subRule(w, r, rC14Gate, "R13.7", "the launch gate itself (same obligations as C14 R14.1)", 4) }, func(w *World, r *Report) { subRule(w, r, rC16Edges, "R13.8", "every declared dependency is recorded (and mirrored): the readiness predicate sees all of them (same obligations as C16 R16.6)", 2) })
+	}, rC13Ownership, rC13Readiness, rC13MarkInProgress, rC13RetryLoop, rC13Completion, func(w *World, r *Report) {
+		subRule(w, r, rC14Completion, "R13.6", "a dependency that did not return nil never lets its dependents start: every non-nil completion is recorded (which closes the launch gate) or marks the dependents skipped (same obligations as C14 R14.2)", 5)
+	}, func(w *World, r *Report) {
+		subRule(w, r, rC14Gate, "R13.7", "the launch gate itself (same obligations as C14 R14.1)", 4)
+	}, func(w *World, r *Report) {
+		subRule(w, r, rC16Edges, "R13.8", "every declared dependency is recorded (and mirrored): the readiness predicate sees all of them (same obligations as C16 R16.6)", 2)
+	})
 }
 
 // goTargets returns the functions started by `go` in fn, and everything literally nested in them.
@@ -477,7 +483,10 @@ func rC13Completion(w *World, r *Report) {
 		sends := doneSends(fn)
 		ig := buildIG(fn)
 		var problems []string
-		isSend := func(in ssa.Instruction) bool { _, ok := in.(*ssa.Send); return ok && strings.HasSuffix(typeString(in.(*ssa.Send).Chan.Type()), "IDErr") }
+		isSend := func(in ssa.Instruction) bool {
+			_, ok := in.(*ssa.Send)
+			return ok && strings.HasSuffix(typeString(in.(*ssa.Send).Chan.Type()), "IDErr")
+		}
 		isExit := func(in ssa.Instruction) bool {
 			switch in.(type) {
 			case *ssa.Return, *ssa.Panic:
